@@ -107,7 +107,7 @@ _PROCESS_LOCK = threading.Lock()   # one simulated cluster at a time per process
 
 
 def silence_library_logging() -> None:
-    for name in ("distributed_shampoo", "matrix_functions", "optimizer_modules", "torch.distributed"):
+    for name in ("distributed_shampoo", "matrix_functions", "optimizer_modules", "torch.distributed", "torch._dynamo", "torch._logging"):
         lg = logging.getLogger(name)
         lg.setLevel(logging.CRITICAL + 1)
         lg.propagate = False
